@@ -3,8 +3,10 @@ import OH.Proofs.EvalSpecPairing
 import OH.Proofs.EvalSpecSel
 /-
 C01 refinement, dated ranges: the model's helpers in terms of the specification's vocabulary
-(`dateInstance`, `shift`), under the hypothesis `BoundOK` (well-formed date, well-formed weekday
-shift, day offset within ±100 000 days — nothing saturates) and for years 0 … 20 000.
+(`dateInstance`, `shift`), under the hypothesis `BoundOK L` (well-formed date, well-formed weekday
+shift, day offset within ±30 000 000 days) and for the years `L … 175 000`, `-165 000 ≤ L` — where nothing
+saturates: the shifted instances of these years lie between -90 265 384 and 93 917 443, inside chrono's
+calendar — and `0 ≤ L` when the bound is Easter (the computus is the Gregorian one from year 0 on only).
 
 The search windows of `MonthdayRange::Date` are centred on the year the bound has to come from
 (`yearBeforeOffset d o` = the year of `d - day offset`).  The window theorems are generic in the
@@ -20,33 +22,50 @@ namespace OH.Proofs.EvalSpec
 open OH.Model OH.Model.Cal
 open OH.Spec (shift dateInstance exactInstance specYear datedOk candidateYears yearsNear yearSpan isFixedDate)
 
-/-- a bound of a dated range the refinement covers: parser-well-formed, offset within ±100 000 days -/
-structure BoundOK (ds : DateSpec) (o : DateOffset) : Prop where
+/-- a year on which the instances of the date are known: one of -165 000 … 175 000, and not before year 0
+for Easter -/
+def YrOK (ds : DateSpec) (k : Int) : Prop := (-165000 ≤ k ∧ k ≤ 175000) ∧ (isFixedDate ds = false → 0 ≤ k)
+
+/-- a bound of a dated range the refinement covers on the years `L … 175 000`: parser-well-formed, offset
+within ±30 000 000 days; `L` is not below -165 000, and not below 0 for Easter -/
+structure BoundOK (L : Int) (ds : DateSpec) (o : DateOffset) : Prop where
   wf : ds.wf = true
   owf : o.wday.wf = true
-  small : -100000 ≤ o.days ∧ o.days ≤ 100000
+  small : -30000000 ≤ o.days ∧ o.days ≤ 30000000
+  lo : -165000 ≤ L
+  east : isFixedDate ds = false → 0 ≤ L
 
-theorem yearStart_0 : yearStart 0 = -366 := by decide
-theorem yearStart_20001 : yearStart 20001 = 7304850 := by decide
+theorem BoundOK.yr {L : Int} {ds : DateSpec} {o : DateOffset} (h : BoundOK L ds o) {k : Int}
+    (hk : L ≤ k ∧ k ≤ 175000) : YrOK ds k :=
+  ⟨⟨by have := h.lo; omega, hk.2⟩, fun hf => by have := h.east hf; omega⟩
 
-/-- a day of the years 0 … 20 000 -/
-theorem inYear_range {y p : Int} (hy : 0 ≤ y ∧ y ≤ 20000) (hp : yearStart y < p ∧ p ≤ yearStart (y + 1)) :
-    -366 < p ∧ p ≤ 7304850 := by
-  have h1 : yearStart 0 ≤ yearStart y := yearStart_le hy.1
-  have h2 : yearStart (y + 1) ≤ yearStart 20001 := yearStart_le (by omega)
-  rw [yearStart_0] at h1; rw [yearStart_20001] at h2
+theorem yearStart_lo : yearStart (-165000) = -60265378 := by decide
+theorem yearStart_hi : yearStart 175001 = 63917437 := by decide
+
+/-- a day of the years -165 000 … 175 000 -/
+theorem inYear_range {y p : Int} (hy : -165000 ≤ y ∧ y ≤ 175000) (hp : yearStart y < p ∧ p ≤ yearStart (y + 1)) :
+    -60265378 < p ∧ p ≤ 63917437 := by
+  have h1 : yearStart (-165000) ≤ yearStart y := yearStart_le hy.1
+  have h2 : yearStart (y + 1) ≤ yearStart 175001 := yearStart_le (by omega)
+  rw [yearStart_lo] at h1; rw [yearStart_hi] at h2
   omega
 
-theorem apply_inst {ds : DateSpec} {o : DateOffset} (h : BoundOK ds o) {y : Int} {after : Bool} {p : Int}
-    (_hy : 0 ≤ y ∧ y ≤ 20000) (_hp : dateInstance ds y after = some p) : o.apply p = .ok (shift o p) :=
+theorem apply_inst {L : Int} {ds : DateSpec} {o : DateOffset} (h : BoundOK L ds o) {y : Int} {after : Bool} {p : Int}
+    (_hy : L ≤ y ∧ y ≤ 175000) (_hp : dateInstance ds y after = some p) : o.apply p = .ok (shift o p) :=
   apply_eq_shift o h.owf p
 
-/-- with a small offset, an instance of the years 0 … 20 000 is shifted without saturation -/
-theorem inst_shift_bounds {ds : DateSpec} {o : DateOffset} (h : BoundOK ds o) {y : Int} {after : Bool} {p : Int}
-    (hy : 0 ≤ y ∧ y ≤ 20000) (hp : dateInstance ds y after = some p) :
+/-- an instance of a year the date is known on lies inside that year -/
+theorem inst_inYear {ds : DateSpec} (hwf : ds.wf = true) {y : Int} (hy : YrOK ds y) {after : Bool} {p : Int}
+    (hp : dateInstance ds y after = some p) : yearStart y < p ∧ p ≤ yearStart (y + 1) :=
+  dateInstance_year ds y after hwf (by have := hy.1; unfold minYear; omega) hy.2
+    (by have := hy.1; unfold maxYear; omega) p hp
+
+/-- with an offset within the bound, an instance of the years `L … 175 000` is shifted without saturation -/
+theorem inst_shift_bounds {L : Int} {ds : DateSpec} {o : DateOffset} (h : BoundOK L ds o) {y : Int} {after : Bool}
+    {p : Int} (hy : L ≤ y ∧ y ≤ 175000) (hp : dateInstance ds y after = some p) :
     p + o.days - 6 ≤ shift o p ∧ shift o p ≤ p + o.days + 6 := by
-  have hin := dateInstance_year ds y after h.wf hy.1 (by unfold maxYear; omega) p hp
-  have := inYear_range hy hin
+  have hin := inst_inYear h.wf (h.yr hy) hp
+  have := inYear_range (h.yr hy).1 hin
   have hs := h.small
   exact shift_bounds o p (by omega) (by rw [minDay_eq]; omega) (by rw [maxDay_eq]; omega)
 
@@ -54,14 +73,15 @@ theorem inst_shift_bounds {ds : DateSpec} {o : DateOffset} (h : BoundOK ds o) {y
 def proj (ds : DateSpec) (o : DateOffset) (after : Bool) (y : Int) : Option Int :=
   (dateInstance ds y after).map (shift o)
 
-theorem boundsOn_eq {ds : DateSpec} {o : DateOffset} (h : BoundOK ds o) (after : Bool) (ys : List Int)
-    (hys : ∀ y ∈ ys, (0 ≤ y ∧ y ≤ 20000) ∧ (specYear ds = none ∨ specYear ds = some y)) :
+theorem boundsOn_eq {L : Int} {ds : DateSpec} {o : DateOffset} (h : BoundOK L ds o) (after : Bool) (ys : List Int)
+    (hys : ∀ y ∈ ys, (L ≤ y ∧ y ≤ 175000) ∧ (specYear ds = none ∨ specYear ds = some y)) :
     boundsOn ds o after ys = .ok (ys.filterMap (proj ds o after)) := by
   induction ys with
   | nil => rfl
   | cons y ys ih =>
     have hy := hys y (by simp)
     have ih' := ih (fun z hz => hys z (by simp [hz]))
+    have hlo := h.lo
     unfold boundsOn
     rw [ih', dateOnYear_eq_instance ds y after h.wf (by unfold minYear; omega) (by unfold maxYear; omega) hy.2]
     simp only [ok_bind, List.filterMap_cons, proj]
@@ -69,14 +89,15 @@ theorem boundsOn_eq {ds : DateSpec} {o : DateOffset} (h : BoundOK ds o) (after :
     | none => rfl
     | some p => simp only [apply_inst h hy.1 hp, ok_bind, pure_eq_ok, Option.map_some]
 
-theorem firstEndFrom_eq {e : DateSpec} {eo : DateOffset} (h : BoundOK e eo) (start : Int) (ys : List Int)
-    (hys : ∀ y ∈ ys, (0 ≤ y ∧ y ≤ 20000) ∧ (specYear e = none ∨ specYear e = some y)) :
+theorem firstEndFrom_eq {L : Int} {e : DateSpec} {eo : DateOffset} (h : BoundOK L e eo) (start : Int) (ys : List Int)
+    (hys : ∀ y ∈ ys, (L ≤ y ∧ y ≤ 175000) ∧ (specYear e = none ∨ specYear e = some y)) :
     firstEndFrom e eo start ys = .ok ((ys.filterMap (proj e eo false)).find? (fun x => decide (x ≥ start))) := by
   induction ys with
   | nil => rfl
   | cons y ys ih =>
     have hy := hys y (by simp)
     have ih' := ih (fun z hz => hys z (by simp [hz]))
+    have hlo := h.lo
     unfold firstEndFrom
     rw [dateOnYear_eq_instance e y false h.wf (by unfold minYear; omega) (by unfold maxYear; omega) hy.2]
     simp only [ok_bind, List.filterMap_cons, proj]
@@ -253,27 +274,28 @@ theorem pairSpec_run (S E : Int → Int) (a1 : Int) (na : Nat) (b1 : Int) (nb : 
 /-! ### class (c): both bounds without a year -/
 
 /-- within the offset bound the cap of `yearSpan` (the whole calendar) is not reached -/
-theorem yearSpan_small (so eo : DateOffset) (h1 : -100000 ≤ so.days ∧ so.days ≤ 100000)
-    (h2 : -100000 ≤ eo.days ∧ eo.days ≤ 100000) :
+theorem yearSpan_small (so eo : DateOffset) (h1 : -30000000 ≤ so.days ∧ so.days ≤ 30000000)
+    (h2 : -30000000 ≤ eo.days ∧ eo.days ≤ 30000000) :
     yearSpan so eo = 3 + (so.days.natAbs + eo.days.natAbs) / 365 := by
   unfold yearSpan
   omega
 
-theorem yearSpan_bounds (so eo : DateOffset) (h1 : -100000 ≤ so.days ∧ so.days ≤ 100000)
-    (h2 : -100000 ≤ eo.days ∧ eo.days ≤ 100000) : 3 ≤ yearSpan so eo ∧ yearSpan so eo ≤ 551 := by
+theorem yearSpan_bounds (so eo : DateOffset) (h1 : -30000000 ≤ so.days ∧ so.days ≤ 30000000)
+    (h2 : -30000000 ≤ eo.days ∧ eo.days ≤ 30000000) : 3 ≤ yearSpan so eo ∧ yearSpan so eo ≤ 164386 := by
   unfold yearSpan
   omega
 
-/-- a well-formed date without a year has an instance on every year 0 … 20 000 -/
+/-- a well-formed date without a year has an instance on every year it is known on -/
 theorem proj_some_yearless (ds : DateSpec) (o : DateOffset) (after : Bool) (hwf : ds.wf = true)
-    (hyl : specYear ds = none) (k : Int) (hk : 0 ≤ k ∧ k ≤ 20000) : ∃ p, proj ds o after k = some p := by
+    (hyl : specYear ds = none) (k : Int) (hk : YrOK ds k) : ∃ p, proj ds o after k = some p := by
   unfold proj
+  obtain ⟨⟨hk1, hk2⟩, hkE⟩ := hk
   cases ds with
   | easter yr =>
     cases yr with
     | some n => simp [specYear] at hyl
     | none =>
-      obtain ⟨d, he, _⟩ := easter_spec k hk.1 (by unfold maxYear; omega)
+      obtain ⟨d, he, _⟩ := easter_spec k (hkE rfl) (by unfold maxYear; omega)
       exact ⟨shift o d, by simp [dateInstance, he]⟩
   | fixed yr m dd =>
     cases yr with
@@ -334,11 +356,11 @@ theorem candidateYears_yearless (s e : DateSpec) (w : Nat) (d : Int) (hs : specY
   unfold candidateYears; rw [hs, he]; simp
 
 /-- the shifted instance of a bound on a year (0 where there is none: never the case for a well-formed
-date without a year on the years 0 … 20 000) -/
+date without a year on the years it is known on) -/
 def projT (ds : DateSpec) (o : DateOffset) (after : Bool) (k : Int) : Int := (proj ds o after k).getD 0
 
 theorem proj_eq_projT (ds : DateSpec) (o : DateOffset) (after : Bool) (hwf : ds.wf = true)
-    (hyl : specYear ds = none) (k : Int) (hk : 0 ≤ k ∧ k ≤ 20000) :
+    (hyl : specYear ds = none) (k : Int) (hk : YrOK ds k) :
     proj ds o after k = some (projT ds o after k) := by
   obtain ⟨p, hp⟩ := proj_some_yearless ds o after hwf hyl k hk
   simp only [projT, hp, Option.getD_some]
@@ -392,11 +414,12 @@ theorem pos_range (ds : DateSpec) (hwf : ds.wf = true) : -2 ≤ posLo ds ∧ pos
     omega
 
 theorem inst_pos (ds : DateSpec) (hwf : ds.wf = true) (hyl : specYear ds = none) (k : Int)
-    (hk : 0 ≤ k ∧ k ≤ 20000) (after : Bool) (p : Int) (hp : dateInstance ds k after = some p) :
+    (hk : YrOK ds k) (after : Bool) (p : Int) (hp : dateInstance ds k after = some p) :
     yearStart k + posLo ds ≤ p ∧ p ≤ yearStart k + posHi ds := by
+  obtain ⟨⟨hk1, hk2⟩, hkE⟩ := hk
   cases ds with
   | easter yr =>
-    obtain ⟨d, he, _, lo, hi, _⟩ := easter_spec k hk.1 (by unfold maxYear; omega)
+    obtain ⟨d, he, _, lo, hi, _⟩ := easter_spec k (hkE rfl) (by unfold maxYear; omega)
     simp only [dateInstance, he] at hp
     split at hp
     · cases hp
@@ -424,19 +447,19 @@ theorem inst_pos (ds : DateSpec) (hwf : ds.wf = true) (hyl : specYear ds = none)
 def shiftLo (ds : DateSpec) (o : DateOffset) : Int := posLo ds + o.days - 6
 def shiftHi (ds : DateSpec) (o : DateOffset) : Int := posHi ds + o.days + 6
 
-theorem projT_pos {ds : DateSpec} {o : DateOffset} (h : BoundOK ds o) (hyl : specYear ds = none)
-    (after : Bool) (k : Int) (hk : 0 ≤ k ∧ k ≤ 20000) :
+theorem projT_pos {L : Int} {ds : DateSpec} {o : DateOffset} (h : BoundOK L ds o) (hyl : specYear ds = none)
+    (after : Bool) (k : Int) (hk : L ≤ k ∧ k ≤ 175000) :
     yearStart k + shiftLo ds o ≤ projT ds o after k ∧ projT ds o after k ≤ yearStart k + shiftHi ds o := by
-  obtain ⟨P, hP⟩ := proj_some_yearless ds o after h.wf hyl k hk
+  obtain ⟨P, hP⟩ := proj_some_yearless ds o after h.wf hyl k (h.yr hk)
   obtain ⟨p, hp, rfl⟩ := proj_eq_some hP
-  have a := inst_pos ds h.wf hyl k hk after p hp
+  have a := inst_pos ds h.wf hyl k (h.yr hk) after p hp
   have b := inst_shift_bounds h hk hp
   simp only [projT, hP, Option.getD_some, shiftLo, shiftHi]
   omega
 
 /-- the shifted instances of a yearless bound increase from each year to the next -/
-theorem projT_stepMono {ds : DateSpec} {o : DateOffset} (h : BoundOK ds o) (hyl : specYear ds = none)
-    (after : Bool) : StepMono (projT ds o after) 0 20000 := by
+theorem projT_stepMono {L : Int} {ds : DateSpec} {o : DateOffset} (h : BoundOK L ds o) (hyl : specYear ds = none)
+    (after : Bool) : StepMono (projT ds o after) L 175000 := by
   intro k h1 h2
   have p1 := projT_pos h hyl after k ⟨h1, by omega⟩
   have p2 := projT_pos h hyl after (k + 1) ⟨by omega, by omega⟩
@@ -446,8 +469,8 @@ theorem projT_stepMono {ds : DateSpec} {o : DateOffset} (h : BoundOK ds o) (hyl 
   omega
 
 /-- `a` being the year of `d - offset`, the instances of the years up to `a - 2` are shifted before `d` … -/
-theorem projT_lt_of_year {ds : DateSpec} {o : DateOffset} (h : BoundOK ds o) (hyl : specYear ds = none)
-    (after : Bool) (d a k : Int) (ha : InY a (d - o.days)) (hk : 0 ≤ k ∧ k ≤ 20000) (hka : k + 2 ≤ a) :
+theorem projT_lt_of_year {L : Int} {ds : DateSpec} {o : DateOffset} (h : BoundOK L ds o) (hyl : specYear ds = none)
+    (after : Bool) (d a k : Int) (ha : InY a (d - o.days)) (hk : L ≤ k ∧ k ≤ 175000) (hka : k + 2 ≤ a) :
     projT ds o after k < d := by
   have p := projT_pos h hyl after k hk
   have r := pos_range ds h.wf
@@ -459,8 +482,8 @@ theorem projT_lt_of_year {ds : DateSpec} {o : DateOffset} (h : BoundOK ds o) (hy
   omega
 
 /-- … and the instances of the years from `a + 2` on are shifted after `d` -/
-theorem lt_projT_of_year {ds : DateSpec} {o : DateOffset} (h : BoundOK ds o) (hyl : specYear ds = none)
-    (after : Bool) (d a k : Int) (ha : InY a (d - o.days)) (hk : 0 ≤ k ∧ k ≤ 20000) (hka : a + 2 ≤ k) :
+theorem lt_projT_of_year {L : Int} {ds : DateSpec} {o : DateOffset} (h : BoundOK L ds o) (hyl : specYear ds = none)
+    (after : Bool) (d a k : Int) (ha : InY a (d - o.days)) (hk : L ≤ k ∧ k ≤ 175000) (hka : a + 2 ≤ k) :
     d < projT ds o after k := by
   have p := projT_pos h hyl after k hk
   have r := pos_range ds h.wf
@@ -471,8 +494,8 @@ theorem lt_projT_of_year {ds : DateSpec} {o : DateOffset} (h : BoundOK ds o) (hy
   omega
 
 /-- the centre of the implementation's windows: without saturation, the year of `d - offset` -/
-theorem yearBeforeOffset_eq (d : Int) (o : DateOffset) (hs : -100000 ≤ o.days ∧ o.days ≤ 100000)
-    (hd : -90000000 ≤ d ∧ d ≤ 90000000) : yearBeforeOffset d o = year (d - o.days) := by
+theorem yearBeforeOffset_eq (d : Int) (o : DateOffset) (hs : -30000000 ≤ o.days ∧ o.days ≤ 30000000)
+    (hd : -60000000 ≤ d ∧ d ≤ 60000000) : yearBeforeOffset d o = year (d - o.days) := by
   unfold yearBeforeOffset
   have e : satNeg o.days = -o.days := by unfold satNeg; rw [if_neg (by omega)]
   rw [e, addDaysSat_eq (by omega) (by rw [minDay_eq]; omega) (by rw [maxDay_eq]; omega)]
@@ -487,8 +510,9 @@ theorem year_sub_near (d n : Int) :
   year_dist (inY_year (d - n)) (inY_year d) n.natAbs (by omega) (by omega)
 
 /-- declarative reading of `datedOk` for two yearless bounds: the pairing on the candidate years -/
-theorem datedOk_yearless_iff (s : DateSpec) (so : DateOffset) (e : DateSpec) (eo : DateOffset) (d : Int)
-    (hs : BoundOK s so) (he : BoundOK e eo) (hsy : specYear s = none) (hey : specYear e = none)
+theorem datedOk_yearless_iff {L : Int} (s : DateSpec) (so : DateOffset) (e : DateSpec) (eo : DateOffset) (d : Int)
+    (hs : BoundOK L s so) (he : BoundOK L e eo) (hL : L + yearSpan so eo ≤ 1899)
+    (hsy : specYear s = none) (hey : specYear e = none)
     (hns : ¬ (s = e ∧ isFixedDate s = true)) (h1 : dateStart - 1 ≤ d) (h2 : d < dateEnd) :
     datedOk s so e eo d = true ↔
       OpenOn (projT s so true) (projT e eo false) (year d - yearSpan so eo) (year d + yearSpan so eo)
@@ -501,10 +525,10 @@ theorem datedOk_yearless_iff (s : DateSpec) (so : DateOffset) (e : DateSpec) (eo
     intro k; rw [candidateYears_yearless s e _ d hsy hey, mem_yearsNear]
   have pS : ∀ k, year d - yearSpan so eo ≤ k → k ≤ year d + yearSpan so eo →
       proj s so true k = some (projT s so true k) :=
-    fun k a b => proj_eq_projT s so true hs.wf hsy k (by omega)
+    fun k a b => proj_eq_projT s so true hs.wf hsy k (hs.yr (by omega))
   have pE : ∀ k, year d - yearSpan so eo ≤ k → k ≤ year d + yearSpan so eo →
       proj e eo false k = some (projT e eo false k) :=
-    fun k a b => proj_eq_projT e eo false he.wf hey k (by omega)
+    fun k a b => proj_eq_projT e eo false he.wf hey k (he.yr (by omega))
   simp only [hey, ne_eq, not_true_eq_false, false_imp_iff, and_true]
   unfold OpenOn
   constructor
@@ -534,17 +558,19 @@ theorem datedOk_yearless_iff (s : DateSpec) (so : DateOffset) (e : DateSpec) (eo
       simp only [proj, hp, Option.map_some, Option.some.injEq] at this
       rw [this]; exact hno j hj'.1 hj'.2
 
-/-- THE WINDOW THEOREM.  Two yearless bounds (not a single fixed day), day offsets within ±100 000 days,
+/-- THE WINDOW THEOREM.  Two yearless bounds (not a single fixed day), day offsets within ±30 000 000 days
+(and the years the specification looks at, `year d ± yearSpan`, not below `L`),
 any day of 1899-12-31 … 9999-12-31: pairing the starts of the years `a1 … a1+na-1` with the ends of the
 years `b1 … b1+nb-1` selects `d` iff the specification does — for ANY two runs of years such that the
 first reaches two years below and two years above the year of `d - start offset`, the second two years
 below and above the year of `d - end offset`.  (The filter takes exactly these five years on each side,
 the hint thirteen.) -/
-theorem dated_window_eq (s : DateSpec) (so : DateOffset) (e : DateSpec) (eo : DateOffset) (d : Int)
-    (hs : BoundOK s so) (he : BoundOK e eo) (hsy : specYear s = none) (hey : specYear e = none)
+theorem dated_window_eq {L : Int} (s : DateSpec) (so : DateOffset) (e : DateSpec) (eo : DateOffset) (d : Int)
+    (hs : BoundOK L s so) (he : BoundOK L e eo) (hL : L + yearSpan so eo ≤ 1899)
+    (hsy : specYear s = none) (hey : specYear e = none)
     (hns : ¬ (s = e ∧ isFixedDate s = true)) (h1 : dateStart - 1 ≤ d) (h2 : d < dateEnd)
     (a1 : Int) (na : Nat) (b1 : Int) (nb : Nat)
-    (ha : 0 ≤ a1 ∧ a1 + na ≤ 20001) (hb : 0 ≤ b1 ∧ b1 + nb ≤ 20001)
+    (ha : L ≤ a1 ∧ a1 + na ≤ 175001) (hb : L ≤ b1 ∧ b1 + nb ≤ 175001)
     (ha1 : a1 + 2 ≤ year (d - so.days)) (ha2 : year (d - so.days) + 2 ≤ a1 + na - 1)
     (hb1 : b1 + 2 ≤ year (d - eo.days)) (hb2 : year (d - eo.days) + 2 ≤ b1 + nb - 1) :
     isOpenFromIntervals d (intervalsFromBounds ((yearRun a1 na).filterMap (proj s so true))
@@ -564,33 +590,33 @@ theorem dated_window_eq (s : DateSpec) (so : DateOffset) (e : DateSpec) (eo : Da
   have mE := projT_stepMono he hey false
   generalize hSdef : projT s so true = S at *
   generalize hEdef : projT e eo false = E at *
-  have pS : ∀ k, 0 ≤ k → k ≤ 20000 → proj s so true k = some (S k) := by
-    intro k a b; rw [← hSdef]; exact proj_eq_projT s so true hs.wf hsy k ⟨a, b⟩
-  have pE : ∀ k, 0 ≤ k → k ≤ 20000 → proj e eo false k = some (E k) := by
-    intro k a b; rw [← hEdef]; exact proj_eq_projT e eo false he.wf hey k ⟨a, b⟩
-  have ltS : ∀ k, 0 ≤ k → k ≤ 20000 → k + 2 ≤ ys → S k < d := by
+  have pS : ∀ k, L ≤ k → k ≤ 175000 → proj s so true k = some (S k) := by
+    intro k a b; rw [← hSdef]; exact proj_eq_projT s so true hs.wf hsy k (hs.yr ⟨a, b⟩)
+  have pE : ∀ k, L ≤ k → k ≤ 175000 → proj e eo false k = some (E k) := by
+    intro k a b; rw [← hEdef]; exact proj_eq_projT e eo false he.wf hey k (he.yr ⟨a, b⟩)
+  have ltS : ∀ k, L ≤ k → k ≤ 175000 → k + 2 ≤ ys → S k < d := by
     intro k a b c; rw [← hSdef]; exact projT_lt_of_year hs hsy true d ys k iS ⟨a, b⟩ c
-  have gtS : ∀ k, 0 ≤ k → k ≤ 20000 → ys + 2 ≤ k → d < S k := by
+  have gtS : ∀ k, L ≤ k → k ≤ 175000 → ys + 2 ≤ k → d < S k := by
     intro k a b c; rw [← hSdef]; exact lt_projT_of_year hs hsy true d ys k iS ⟨a, b⟩ c
-  have ltE : ∀ k, 0 ≤ k → k ≤ 20000 → k + 2 ≤ ye → E k < d := by
+  have ltE : ∀ k, L ≤ k → k ≤ 175000 → k + 2 ≤ ye → E k < d := by
     intro k a b c; rw [← hEdef]; exact projT_lt_of_year he hey false d ye k iE ⟨a, b⟩ c
-  have gtE : ∀ k, 0 ≤ k → k ≤ 20000 → ye + 2 ≤ k → d < E k := by
+  have gtE : ∀ k, L ≤ k → k ≤ 175000 → ye + 2 ≤ k → d < E k := by
     intro k a b c; rw [← hEdef]; exact lt_projT_of_year he hey false d ye k iE ⟨a, b⟩ c
   rw [run_filterMap _ S a1 na (fun k a b => pS k (by omega) (by omega)),
     run_filterMap _ E b1 nb (fun k a b => pE k (by omega) (by omega))]
-  have sortS := run_map_sorted S 0 20000 a1 na mS (by omega) (by omega)
-  have sortE := run_map_sorted E 0 20000 b1 nb mE (by omega) (by omega)
+  have sortS := run_map_sorted S L 175000 a1 na mS (by omega) (by omega)
+  have sortE := run_map_sorted E L 175000 b1 nb mE (by omega) (by omega)
   have hlast : d < S (a1 + na - 1) := gtS _ (by omega) (by omega) (by omega)
   rw [Bool.eq_iff_iff, isOpen_intervalsFromBounds' _ _ d sortS sortE (by omega),
     pairSpec_run S E a1 na b1 nb d,
-    openOn_widen S E 0 20000 a1 (a1 + na - 1) b1 (b1 + nb - 1) d mS mE (by omega) (by omega)
+    openOn_widen S E L 175000 a1 (a1 + na - 1) b1 (b1 + nb - 1) d mS mE (by omega) (by omega)
       ⟨by have := ltS a1 (by omega) (by omega) (by omega); omega, hlast,
         ltE b1 (by omega) (by omega) (by omega),
         by have := gtE (b1 + nb - 1) (by omega) (by omega) (by omega); omega⟩,
-    datedOk_yearless_iff s so e eo d hs he hsy hey hns h1 h2, hSdef, hEdef]
+    datedOk_yearless_iff s so e eo d hs he hL hsy hey hns h1 h2, hSdef, hEdef]
   generalize yearSpan so eo = w at *
   generalize year d = y at *
-  exact (openOn_widen S E 0 20000 (y - w) (y + w) (y - w) (y + w) d mS mE (by omega) (by omega)
+  exact (openOn_widen S E L 175000 (y - w) (y + w) (y - w) (y + w) d mS mE (by omega) (by omega)
     ⟨by have := ltS (y - w) (by omega) (by omega) (by omega); omega,
       gtS (y + w) (by omega) (by omega) (by omega),
       ltE (y - w) (by omega) (by omega) (by omega),
@@ -598,13 +624,15 @@ theorem dated_window_eq (s : DateSpec) (so : DateOffset) (e : DateSpec) (eo : Da
 
 /-- Class (c): a dated range whose two bounds carry no year (and that is not a single fixed day):
 the model's filter is the specification's `datedOk` on EVERY day of 1899-12-31 … 9999-12-31, whatever
-the offsets within ±100 000 days. -/
-theorem dated_yearless_eq (s : DateSpec) (so : DateOffset) (e : DateSpec) (eo : DateOffset) (d : Int)
-    (hs : BoundOK s so) (he : BoundOK e eo) (hsy : specYear s = none) (hey : specYear e = none)
+the offsets within ±30 000 000 days (`L`: the years `year d ± yearSpan` are years the bounds are known on). -/
+theorem dated_yearless_eq {L : Int} (s : DateSpec) (so : DateOffset) (e : DateSpec) (eo : DateOffset) (d : Int)
+    (hs : BoundOK L s so) (he : BoundOK L e eo) (hL : L + yearSpan so eo ≤ 1899)
+    (hsy : specYear s = none) (hey : specYear e = none)
     (hns : ¬ (s = e ∧ isFixedDate s = true)) (h1 : dateStart - 1 ≤ d) (h2 : d < dateEnd) :
     MonthdayRange.filter (.date s so e eo) d = .ok (datedOk s so e eo d) := by
   have hy : 1899 ≤ year d ∧ year d ≤ 9999 := year_window h1 h2
   have hdw := window_days h1 h2
+  have hwdef : yearSpan so eo = 3 + (so.days.natAbs + eo.days.natAbs) / 365 := yearSpan_small so eo hs.small he.small
   have nS := year_sub_near d so.days
   have nE := year_sub_near d eo.days
   have hss := hs.small
@@ -623,7 +651,7 @@ theorem dated_yearless_eq (s : DateSpec) (so : DateOffset) (e : DateSpec) (eo : 
     rfl
   rw [filter_generic s so e eo d hsy hns _ _ b1 b2]
   congr 1
-  exact dated_window_eq s so e eo d hs he hsy hey hns h1 h2 _ 5 _ 5 (by omega) (by omega)
+  exact dated_window_eq s so e eo d hs he hL hsy hey hns h1 h2 _ 5 _ 5 (by omega) (by omega)
     (by omega) (by omega) (by omega) (by omega)
 
 /-! ### class (b): a single fixed day without a year (`Dec 25`, `Feb 29`, `May 1 -1 day-May 1 +2 days`) -/
@@ -778,19 +806,19 @@ theorem datedOk_single_iff (m dd : Nat) (so eo : DateOffset) (d : Int) :
   · rintro ⟨k, hk1, hk2, f, hf, h1, h2⟩
     exact ⟨k, ⟨hk1, hk2⟩, by simp [hf, h1, h2]⟩
 
-/-- facts about the occurrences of a single day shifted by offsets within ±100 000 days, on the years
-0 … 20 000 -/
+/-- facts about the occurrences of a single day shifted by offsets within ±30 000 000 days, on the years
+-165 000 … 175 000 -/
 structure SDFacts (m dd : Nat) (so eo : DateOffset) : Prop where
   /-- the shifts do not saturate -/
-  sb : ∀ k f, 0 ≤ k → k ≤ 20000 → ofYmd? k m dd = some f →
+  sb : ∀ k f, -165000 ≤ k → k ≤ 175000 → ofYmd? k m dd = some f →
     (f + so.days - 6 ≤ shift so f ∧ shift so f ≤ f + so.days + 6) ∧
     (f + eo.days - 6 ≤ shift eo f ∧ shift eo f ≤ f + eo.days + 6)
   /-- occurrences of successive years are at least 364 days apart -/
-  gap : ∀ k f k' f', 0 ≤ k → k < k' → k' ≤ 20000 → ofYmd? k m dd = some f → ofYmd? k' m dd = some f' →
+  gap : ∀ k f k' f', -165000 ≤ k → k < k' → k' ≤ 175000 → ofYmd? k m dd = some f → ofYmd? k' m dd = some f' →
     f + 364 ≤ f'
 
 theorem sdFacts (m dd : Nat) (so eo : DateOffset)
-    (hss : -100000 ≤ so.days ∧ so.days ≤ 100000) (hes : -100000 ≤ eo.days ∧ eo.days ≤ 100000) :
+    (hss : -30000000 ≤ so.days ∧ so.days ≤ 30000000) (hes : -30000000 ≤ eo.days ∧ eo.days ≤ 30000000) :
     SDFacts m dd so eo := by
   constructor
   · intro k f k1 k2 hf
@@ -808,7 +836,7 @@ theorem sdFacts (m dd : Nat) (so eo : DateOffset)
 /-- THE SINGLE-DAY WINDOW THEOREM.  `c` being the year of `d - end offset`: some occurrence of the years
 `c-1 … c-2+n` (`n ≥ 10`), shifted, contains `d` iff the specification selects `d`. -/
 theorem single_window_iff (m dd : Nat) (so eo : DateOffset) (d : Int)
-    (hss : -100000 ≤ so.days ∧ so.days ≤ 100000) (hes : -100000 ≤ eo.days ∧ eo.days ≤ 100000)
+    (hss : -30000000 ≤ so.days ∧ so.days ≤ 30000000) (hes : -30000000 ≤ eo.days ∧ eo.days ≤ 30000000)
     (h1 : dateStart - 1 ≤ d) (h2 : d < dateEnd) (n : Nat) (hn : 10 ≤ n ∧ n ≤ 100) :
     (∃ r ∈ (yearRun (year (d - eo.days) - 1) n).filterMap (dayIv m dd so eo), r.1 ≤ d ∧ d ≤ r.2) ↔
       datedOk (.fixed none m dd) so (.fixed none m dd) eo d = true := by
@@ -855,8 +883,8 @@ theorem single_window_iff (m dd : Nat) (so eo : DateOffset) (d : Int)
 
 /-- the shifted occurrences of a run of years start in increasing order -/
 theorem dayIv_sorted (m dd : Nat) (so eo : DateOffset)
-    (hss : -100000 ≤ so.days ∧ so.days ≤ 100000) (hes : -100000 ≤ eo.days ∧ eo.days ≤ 100000)
-    (a : Int) (n : Nat) (ha : 0 ≤ a ∧ a + n ≤ 20001) :
+    (hss : -30000000 ≤ so.days ∧ so.days ≤ 30000000) (hes : -30000000 ≤ eo.days ∧ eo.days ≤ 30000000)
+    (a : Int) (n : Nat) (ha : -165000 ≤ a ∧ a + n ≤ 175001) :
     ((yearRun a n).filterMap (dayIv m dd so eo)).Pairwise (fun r r' => r.1 ≤ r'.1) := by
   have F := sdFacts m dd so eo hss hes
   unfold yearRun
@@ -874,10 +902,10 @@ theorem dayIv_sorted (m dd : Nat) (so eo : DateOffset)
   omega
 
 /-- Class (b): a single fixed day without a year — every day of 1899-12-31 … 9999-12-31, any offsets
-within ±100 000 days. -/
+within ±30 000 000 days. -/
 theorem dated_single_eq (m dd : Nat) (so eo : DateOffset) (d : Int)
-    (hso : so.wday.wf = true) (hss : -100000 ≤ so.days ∧ so.days ≤ 100000)
-    (heo : eo.wday.wf = true) (hes : -100000 ≤ eo.days ∧ eo.days ≤ 100000)
+    (hso : so.wday.wf = true) (hss : -30000000 ≤ so.days ∧ so.days ≤ 30000000)
+    (heo : eo.wday.wf = true) (hes : -30000000 ≤ eo.days ∧ eo.days ≤ 30000000)
     (h1 : dateStart - 1 ≤ d) (h2 : d < dateEnd) :
     MonthdayRange.filter (.date (.fixed none m dd) so (.fixed none m dd) eo) d
       = .ok (datedOk (.fixed none m dd) so (.fixed none m dd) eo d) := by
